@@ -367,6 +367,10 @@ func (cv CertValidity) toTimeStruct() (config.CertificateValidity, error) {
 			d, _ := strconv.Atoi(all[6])
 
 			out.Until = out.From.AddDate(y, m, d)
+			//a number that is too large makes the date wrap around
+			if out.Until.Before(out.From) {
+				return out, errors.New(`config-v1: "duration" is out of range`)
+			}
 			out.IsSet = true
 		} else {
 			//both empty
